@@ -145,7 +145,34 @@ func runC18(c *Ctx) {
 			if !ok || ef.Act == nil {
 				continue
 			}
-			ems, _ := traceAppends(g, AV{ef.Act, st.Val})
+			ems, bases := traceAppends(g, AV{ef.Act, st.Val})
+			// a one-element literal []string{x} is a list holding x
+			for _, b := range bases {
+				sl, isSl := b.V.(*ssa.Slice)
+				if !isSl || b.Act != s {
+					continue
+				}
+				al, isAl := sl.X.(*ssa.Alloc)
+				if !isAl || al.Referrers() == nil {
+					continue
+				}
+				if at, isArr := deref(al.Type()).Underlying().(*types.Array); !isArr || at.Len() != 1 {
+					continue
+				}
+				for _, r := range *al.Referrers() {
+					ia, isIA := r.(*ssa.IndexAddr)
+					if !isIA || ia.Referrers() == nil {
+						continue
+					}
+					for _, r2 := range *ia.Referrers() {
+						if stEl, isSt := r2.(*ssa.Store); isSt && stEl.Addr == ssa.Value(ia) {
+							if el := s.Env[stEl.Val]; el != nil && innermostLoop(loops, sl.Block()) == nil {
+								bare = &nameApp{Cond: s.RCAt(sl), Val: u.mk("append", "elems", sl.Type(), u.mk("nil", "", sl.Type()), el), Ins: sl}
+							}
+						}
+					}
+				}
+			}
 			for _, em := range ems {
 				if len(em.Elems) != 1 || em.Act != s {
 					continue
